@@ -516,8 +516,14 @@ class DatasetProcessor:
 
         self.process_assigned_reads(sample, saves_file)
         if not self.args.read_assignments and not self.args.keep_tmp:
+            # remove the markers first, so that an interrupted clean-up is never taken for a complete set of saves
+            if os.path.exists(saves_file + "_lock"):
+                os.remove(saves_file + "_lock")
+            clean_locks(self.get_chr_list(), saves_file, reads_collected_lock_file_name)
             for f in glob.glob(saves_file + "_*"):
                 os.remove(f)
+            if os.path.exists(read_group_lock_filename(sample)):
+                os.remove(read_group_lock_filename(sample))
             for f in glob.glob(sample.read_group_file + "*"):
                 os.remove(f)
         logger.info("Processed experiment " + sample.prefix)
@@ -710,6 +716,9 @@ class DatasetProcessor:
             if not self.args.no_model_construction:
                 for k, v in tsc.stats_dict.items():
                     transcript_stat_counter.stats_dict[k] += v
+
+        # per-chromosome results are consumed below: from now on an interrupted run has to recompute them on --resume
+        clean_locks(chr_ids, dump_filename, reads_processed_lock_file_name)
 
         if not self.args.no_model_construction:
             self.merge_transcript_models(sample.prefix, aggregator, chr_ids, gff_printer)
